@@ -1,29 +1,52 @@
 """C10 — shape casting and constant normalisation are exact and minimal."""
 import enum, itertools, random
 from common import z, zlist, blit
+import exprgen as G
 
 ID = "C10"
 LEVEL = "proof"
 PROPS_FILE = "C10.v"
 RUN_MODULE = "RunC10"
 TRANSLATOR_UNITS = ["utils", "shape"]
-RULE = ("exhaustive small scope (ranges start,stop in [-20,20] x step in [-5,5]\\{0} in thorough, [-9,9]x[-3,3] quick; "
+RULE = ("[after the audit: + Signal init / MemoryData rows given as int, bool, IntEnum and Enum members, Const, Cat, Slice on Shape and "
+        "range shapes (exhaustive small ranges x values, rows beyond depth), Const(v, range), Const(member[, shape]), enumeration "
+        "classes of every kind (Enum, IntEnum, Flag, IntFlag, amaranth.lib.enum with/without shape=, Const-valued members), "
+        "int/bool/enum parts in Const.cast] exhaustive small scope (ranges start,stop in [-20,20] x step in [-5,5]\\{0} in thorough, [-9,9]x[-3,3] quick; "
         "Const(v,shape) |v|<=70 x width<=6; enums from multisets of <=3 values in [-9,9]; bit helpers -300..300) "
         "+ seeded random around +-2^k (k<=70) + malformed (invalid shapes, out-of-range inits). "
         "non-trivial = the model answer is not an error and the input is not all-zero; distinct by case hash")
 MODELLED = ("Shape.cast(range/Enum), Const.__init__, Const.cast(Cat/Slice), utils.bits_for/ceil_log2/exact_log2 are "
             "modelled in coq/Model/Shape.v; utils.py, Shape._unify, range branch, enum loop body and Const wrap are "
             "additionally regenerated from source (coq/Gen) and proved equal to the model; CPython's len(range)/range[-1], "
-            "enum iteration and Signal/MemoryData plumbing are validated only")
+            "enum iteration (aliases, Flag canonical members: coq/Model/Cast.v cast_flag), _get_init_value and MemoryData.Init "
+            "(coq/Model/Cast.v get_init_value / mem_init) are hand-modelled and validated by the run")
 ASSUMPTIONS = ["CPython range semantics as modelled by Shape.range_len/range_nth (validated by the run)"]
 
 
+def _ikind(i):
+    if i is None:
+        return "None"
+    if isinstance(i, bool):
+        return "bool"
+    if isinstance(i, int):
+        return "int"
+    return {"ie": "IntEnum", "en": "Enum", "c": "Const", "cat": "Cat", "sl": "Slice", "pi": "int", "b": "bool"}[i[0]]
+
+
 def classify(c):
-    return c["k"]
+    k = c["k"]
+    if k == "init_x":
+        return f"init_x:{c['sp'][0]}:{_ikind(c['i'])}"
+    if k == "mem_init":
+        return f"mem_init:{c['sp'][0]}:" + "+".join(sorted({_ikind(i) for i in c["elems"]}) or ["empty"])
+    if k in ("enum_cls", "const_member"):
+        return f"{k}:{c['cls']}" + (":shape=" if c.get("shape") is not None else "")
+    return k
 
 
 def nontrivial(c, obs):
-    if obs and obs[0] == 0 and c["k"] in ("ceil_log2", "exact_log2", "const", "const_int", "const_cast", "init_range"):
+    if obs and obs[0] == 0 and c["k"] in ("ceil_log2", "exact_log2", "const", "const_int", "const_cast", "init_range",
+                                           "init_x", "mem_init", "const_member", "enum_cls"):
         return False
     return any(v not in (0, None) for v in _ints(c))
 
@@ -104,29 +127,147 @@ def gen_cases(tier, seed):
         st = rng.choice((1, 1, 2, 3, -1, -2, -3))
         cases.append({"k": "init_range", "a": a, "b": b, "st": st, "v": rng.randrange(-15, 16)})
     # constant expressions
-    def cexpr(d):
+    def cexpr(d, ext=False, part=False):
         r = rng.random()
+        if ext and part and rng.random() < 0.3:
+            # a Cat part that is not a Value: int, bool, enum member (Value.cast applies)
+            q = rng.random()
+            if q < 0.5:
+                return ["pi", rng.randrange(-9, 10)]
+            if q < 0.65:
+                return ["b", rng.random() < 0.5]
+            ms = sorted({rng.randrange(-5, 9) for _ in range(rng.randrange(1, 4))})
+            return [rng.choice(("ie", "en")), rng.choice(ms), ms]
         if d == 0 or r < 0.3:
             sg = rng.random() < 0.4
             w = rng.randrange(1 if sg else 0, 7)
             return ["c", rng.randrange(-40, 41), w, sg]
         if r < 0.7:
-            return ["cat", [cexpr(d - 1) for _ in range(rng.randrange(0, 4))]]
-        e = cexpr(d - 1)
+            return ["cat", [cexpr(d - 1, ext, True) for _ in range(rng.randrange(0, 4))]]
+        e = cexpr(d - 1, ext)
         n = cwidth(e)
         lo = rng.randrange(0, n + 1)
         hi = rng.randrange(lo, n + 1)
-        if rng.random() < 0.08:
+        if not ext and rng.random() < 0.08:
             hi = n + 1 + rng.randrange(0, 2)   # malformed
         return ["sl", e, lo, hi]
     for _ in range(N):
         cases.append({"k": "const_cast", "e": cexpr(rng.randrange(1, 4 if not thorough else 6))})
+    # ---------------- added after the coverage audit ----------------
+    SHAPES = [["sh", w, sg] for w in (0, 1, 3, 4) for sg in (False, True) if w or not sg]
+    def rand_init(shape_w):
+        """an `init=` value: int / bool / IntEnum member / Enum member / Const / Cat / Slice"""
+        r = rng.random()
+        v = rng.randrange(-(1 << shape_w) - 2, (1 << shape_w) + 3)
+        if r < 0.25:
+            return v
+        if r < 0.3:
+            return ["b", rng.random() < 0.5]
+        if r < 0.45:
+            ms = sorted({v, rng.randrange(-9, 10), rng.randrange(0, 4)})
+            return [rng.choice(("ie", "en")), v, ms]
+        if r < 0.5:
+            return None
+        return cexpr(rng.randrange(0, 3), ext=True)
+    # Signal(shape, init=<every kind>) on Shape shapes: exhaustive small values; then random
+    for sp in SHAPES:
+        w = sp[1]
+        for v in range(-(1 << w) - 1, (1 << w) + 2):
+            ms = sorted({v, 0, 3})
+            cases.append({"k": "init_x", "sp": sp, "i": ["ie", v, ms]})
+            cases.append({"k": "init_x", "sp": sp, "i": ["en", v, ms]})
+            for csh in ([w + 1, True], [max(1, w), False], [w + 2, False]):
+                cases.append({"k": "init_x", "sp": sp, "i": ["c", v, csh[0], csh[1]]})
+            cases.append({"k": "init_x", "sp": sp, "i": ["cat", [["c", v, 2, False], ["c", v >> 2, max(1, w), True]]]})
+            cases.append({"k": "init_x", "sp": sp, "i": ["sl", ["c", v, w + 3, True], 1, w + 2]})
+        cases.append({"k": "init_x", "sp": sp, "i": None})
+        cases.append({"k": "init_x", "sp": sp, "i": ["b", True]})
+    # ... and on range shapes: every small range x every kind of init at, around and inside the range
+    RR = 5 if not thorough else 8
+    for a in range(-RR, RR + 1):
+        for b in range(-RR, RR + 1):
+            for st in (1, 2, -1, -3):
+                if not thorough and (a + b + st) % 3:
+                    continue
+                sp = ["rg", a, b, st]
+                elems = list(range(a, b, st))
+                probe = sorted(set([a, b, a - st, b - st, b + st, 0] + elems[:2] + elems[-1:]))
+                for v in probe:
+                    cases.append({"k": "init_x", "sp": sp, "i": v})
+                    cases.append({"k": "init_x", "sp": sp, "i": ["ie", v, sorted({v, 1})]})
+                v = rng.choice(probe)
+                cases.append({"k": "init_x", "sp": sp, "i": ["en", v, sorted({v, 1})]})
+                cases.append({"k": "init_x", "sp": sp, "i": ["c", v, 5, True]})
+                cases.append({"k": "init_x", "sp": sp, "i": ["cat", [["c", v, 5, True]]]})
+                cases.append({"k": "init_x", "sp": sp, "i": None})
+                # the same range as the shape of memory rows
+                row = [rng.choice(elems) if elems and rng.random() < 0.8 else rng.choice(probe) for _ in range(rng.randrange(0, 4))]
+                cases.append({"k": "mem_init", "sp": sp, "depth": len(row) + rng.randrange(0, 3), "elems": row})
+                cases.append({"k": "const_range", "v": rng.choice(probe + [b, a + 100, -77]), "a": a, "b": b, "st": st})
+    # MemoryData rows on Shape shapes: wrapped like Const; every kind of element; too many elements; default rows
+    for sp in SHAPES:
+        w = sp[1]
+        for v in range(-(1 << w) - 1, (1 << w) + 2):
+            cases.append({"k": "mem_init", "sp": sp, "depth": 3, "elems": [v, -v]})
+        for _ in range(40 if not thorough else 400):
+            n = rng.randrange(0, 5)
+            depth = n + rng.choice((0, 0, 1, 3, -1)) if n else rng.choice((0, 2))
+            cases.append({"k": "mem_init", "sp": sp, "depth": depth, "elems": [rand_init(w) for _ in range(n)]})
+    for _ in range(N):
+        sg = rng.random() < 0.5
+        sp = ["sh", rng.randrange(1 if sg else 0, 70), sg]
+        cases.append({"k": "init_x", "sp": sp, "i": rand_init(rng.randrange(0, 66))})
+        cases.append({"k": "mem_init", "sp": sp, "depth": rng.randrange(0, 4), "elems": [big() if rng.random() < 0.5 else rand_init(6) for _ in range(rng.randrange(0, 4))]})
+        a, b = mid(), mid()
+        cases.append({"k": "const_range", "v": big(), "a": a, "b": b, "st": rng.choice((1, -1, 3, -7, 1 << rng.randrange(0, 30)))})
+    # enumeration classes of every kind; Const(member) and Const(member, shape)
+    PY = ("Enum", "IntEnum", "Flag", "IntFlag")
+    AM = ("aEnum", "aIntEnum", "aFlag", "aIntFlag")
+    for n in range(0, 4):
+        for ms in itertools.combinations_with_replacement(list(range(-4, 9)), n):
+            if n == 3 and rng.random() < (0.85 if not thorough else 0.3):
+                continue
+            for cls in PY + AM:
+                flag = "Flag" in cls
+                if flag and any(m < 0 for m in ms):
+                    continue
+                if not thorough and rng.random() < 0.5:
+                    continue
+                cases.append({"k": "enum_cls", "cls": cls, "ms": list(ms)})
+                if ms and rng.random() < 0.5:
+                    sh = rng.choice((None, None, rng.randrange(-1, 5), ["sh", rng.randrange(0, 5), rng.random() < 0.5]))
+                    cases.append({"k": "const_member", "cls": cls, "ms": list(ms), "v": rng.choice(ms), "shape": sh})
+    for _ in range(N // 2):
+        cls = rng.choice(PY + AM)
+        flag = "Flag" in cls
+        ms = [abs(big()) if flag else (big() if rng.random() < 0.6 else rng.randrange(-3, 4)) for _ in range(rng.randrange(1, 5))]
+        if flag and rng.random() < 0.5:
+            ms = [1 << rng.randrange(0, 40) for _ in ms] + ([rng.randrange(0, 1 << 12)] if rng.random() < 0.5 else [])
+        cases.append({"k": "enum_cls", "cls": cls, "ms": ms})
+        cases.append({"k": "const_member", "cls": cls, "ms": ms, "v": rng.choice(ms), "shape": rng.choice((None, None, rng.randrange(0, 70)))})
+        # amaranth.lib.enum: members whose values are constants (replaced by their integer value), explicit shape=
+        cm = [rng.choice((rng.randrange(-9, 10), ["c", rng.randrange(-40, 41), *(lambda g: (rng.randrange(1 if g else 0, 7), g))(rng.random() < 0.4)]))
+              for _ in range(rng.randrange(1, 4))]
+        cases.append({"k": "enum_cls", "cls": "aEnum", "ms": cm})
+        sg = rng.random() < 0.5
+        cases.append({"k": "enum_cls", "cls": "aEnum", "ms": cm, "shape": ["sh", rng.randrange(1 if sg else 0, 8), sg]})
+        c1 = ["c", rng.randrange(-40, 41), *(lambda g: (rng.randrange(1 if g else 0, 9), g))(rng.random() < 0.4)]
+        cases.append({"k": "enum_cls", "cls": "Enum", "ms": [c1]})          # a plain enum.Enum with ONE Const-valued member
+    # constant expressions with parts that are not Const: ints, bools, enum members
+    for _ in range(N // 2):
+        cases.append({"k": "const_cast", "e": ["cat", [cexpr(rng.randrange(0, 3), ext=True) for _ in range(rng.randrange(1, 4))]]})
     return cases
 
 
 def cwidth(e):
     if e[0] == "c":
         return e[2]
+    if e[0] == "pi":
+        return G.const_shape(e[1])[0]
+    if e[0] == "b":
+        return 1
+    if e[0] in ("ie", "en"):
+        return G.enum_shape(e[2])[0]
     if e[0] == "cat":
         return sum(cwidth(p) for p in e[1])
     return e[3] - e[2]
@@ -182,13 +323,30 @@ def run_impl(c):
                 if type(e).__name__ == "SyntaxError":   # amaranth.hdl._ast.SyntaxError
                     return [0]
                 raise
+        if k in ("init_x", "mem_init", "const_range", "const_member", "enum_cls"):
+            try:
+                if k == "init_x":
+                    return [1, Signal(_shape(c["sp"]), init=_init(c["i"])).init]
+                if k == "mem_init":
+                    from amaranth.hdl import MemoryData
+                    return [1] + list(MemoryData(shape=_shape(c["sp"]), depth=c["depth"], init=[_init(i) for i in c["elems"]]).init)
+                if k == "const_range":
+                    k_ = Const(c["v"], range(c["a"], c["b"], c["st"]))
+                    return _sh(k_.shape()) + [k_.value]
+                E = _enum_class(c["cls"], c["ms"], c.get("shape") if k == "enum_cls" else None)
+                if k == "enum_cls":
+                    return [1] + _sh(Shape.cast(E))
+                member = E[f"M{c['ms'].index(c['v'])}"]
+                sh = c["shape"]
+                k_ = Const(member) if sh is None else Const(member, sh if isinstance(sh, int) else Shape(sh[1], sh[2]))
+                return [1] + _sh(k_.shape()) + [k_.value]
+            except Exception as e:
+                code = ERR_CLASS.get(type(e).__name__)
+                if code:
+                    return [0, code]
+                raise
         if k == "const_cast":
-            def build(e):
-                if e[0] == "c":
-                    return Const(e[1], Shape(e[2], e[3]))
-                if e[0] == "cat":
-                    return Cat(*[build(p) for p in e[1]])
-                return Slice(build(e[1]), e[2], e[3])
+            build = _build_cexpr
             try:
                 k_ = Const.cast(build(c["e"]))
                 return [1, k_.value] + _sh(k_.shape())
@@ -199,9 +357,94 @@ def run_impl(c):
     raise ValueError(k)
 
 
+ERR_CLASS = {"TypeError": 1, "ValueError": 2, "IndexError": 3, "SyntaxError": 4}    # by NAME (amaranth has its own SyntaxError)
+
+
+def _shape(sp):
+    from amaranth.hdl import Shape
+    return Shape(sp[1], bool(sp[2])) if sp[0] == "sh" else range(sp[1], sp[2], sp[3])
+
+
+def _member(kind, v, ms):
+    return G.enum_member(v, ms, "I" if kind == "ie" else "E")
+
+
+def _build_cexpr(e):
+    from amaranth.hdl import Const, Shape, Cat
+    from amaranth.hdl._ast import Slice
+    if e[0] == "c":
+        return Const(e[1], Shape(e[2], bool(e[3])))
+    if e[0] == "pi":
+        return e[1]
+    if e[0] == "b":
+        return bool(e[1])
+    if e[0] in ("ie", "en"):
+        return _member(e[0], e[1], e[2])
+    if e[0] == "cat":
+        return Cat(*[_build_cexpr(p) for p in e[1]])
+    return Slice(_build_cexpr(e[1]), e[2], e[3])
+
+
+def _init(i):
+    if i is None or isinstance(i, int):
+        return i
+    return _build_cexpr(i)
+
+
+def _enum_class(cls, ms, shape=None):
+    """a fresh enumeration class of the given kind; members M0.. with the given values (ints or ["c", v, w, sg] constants)"""
+    import types
+    from amaranth.hdl import Const, Shape
+    vals = [m if isinstance(m, int) else Const(m[1], Shape(m[2], bool(m[3]))) for m in ms]
+    if cls.startswith("a"):
+        from amaranth.lib import enum as aenum
+        base = getattr(aenum, cls[1:])
+    else:
+        base = getattr(enum, cls)
+    kw = {} if shape is None else {"shape": Shape(shape[1], bool(shape[2]))}
+    def body(ns):
+        for i, v in enumerate(vals):
+            ns[f"M{i}"] = v
+    return types.new_class("E", (base,), kw, body)
+
+
+def _spec(sp):
+    return f"(SShape (Sh {z(sp[1])} {blit(sp[2])}))" if sp[0] == "sh" else f"(SRange {z(sp[1])} {z(sp[2])} {z(sp[3])})"
+
+
+def _initv(i):
+    if i is None:
+        return "INone"
+    if isinstance(i, int):
+        return f"(IInt {z(i)})"
+    if i[0] == "b":
+        return f"(IInt {int(bool(i[1]))})"
+    if i[0] == "ie":
+        return f"(IInt {z(i[1])})"            # an IntEnum member is an int
+    if i[0] == "en":
+        return f"(IEnum {zlist(i[2])} {z(i[1])})"
+    return f"(IExpr {_cexpr(i)})"
+
+
+def _cls_shape(c):
+    """Gallina term for Shape.cast(class): the model iterates the members the way the class does"""
+    ms = "[" + "; ".join(z(m) if isinstance(m, int) else f"(const_norm (Sh {z(m[2])} {blit(m[3])}) {z(m[1])})" for m in c["ms"]) + "]"
+    if c.get("shape") is not None and c["k"] == "enum_cls":
+        return f"(Sh {z(c['shape'][1])} {blit(c['shape'][2])})"
+    if c["cls"] == "Enum" and any(not isinstance(m, int) for m in c["ms"]):
+        return "(cast_enum_shapes [" + "; ".join(f"Sh {z(m[2])} {blit(m[3])}" for m in c["ms"]) + "])"
+    return f"(cast_flag {ms})" if "Flag" in c["cls"] else f"(cast_enum {ms})"
+
+
 def _cexpr(e):
     if e[0] == "c":
         return f"(CConst {z(e[1])} (Sh {z(e[2])} {blit(e[3])}))"
+    if e[0] == "pi":
+        return f"(CConst {z(e[1])} (const_shape {z(e[1])}))"
+    if e[0] == "b":
+        return f"(CConst {int(bool(e[1]))} (const_shape {int(bool(e[1]))}))"
+    if e[0] in ("ie", "en"):
+        return f"(CConst {z(e[1])} (cast_enum {zlist(e[2])}))"
     if e[0] == "cat":
         return "(CCat [" + "; ".join(_cexpr(p) for p in e[1]) + "])"
     return f"(CSlice {_cexpr(e[1])} {z(e[2])} {z(e[3])})"
@@ -229,8 +472,23 @@ def coq_term(c):
         return f"k_init_range {z(c['a'])} {z(c['b'])} {z(c['st'])} {z(c['v'])}"
     if k == "const_cast":
         return f"k_const_cast {_cexpr(c['e'])}"
+    if k == "init_x":
+        return f"k_init_x {_spec(c['sp'])} {_initv(c['i'])}"
+    if k == "mem_init":
+        return f"k_mem_init {_spec(c['sp'])} {z(c['depth'])} [" + "; ".join(_initv(i) for i in c["elems"]) + "]"
+    if k == "const_range":
+        return f"k_const_range {z(c['v'])} {z(c['a'])} {z(c['b'])} {z(c['st'])}"
+    if k == "enum_cls":
+        return f"k_shape {_cls_shape(c)}"
+    if k == "const_member":
+        sh = c["shape"]
+        if sh is None:
+            return f"k_const_member_default {_cls_shape(c)} {z(c['v'])}"
+        o = f"(const_int_shape {z(c['v'])} {z(sh)})" if isinstance(sh, int) else f"(Some (Sh {z(sh[1])} {blit(sh[2])}))"
+        return f"k_const_member_shape {o} {z(c['v'])}"
     raise ValueError(k)
 
 
 def explain(c):
-    return "model answer encodes: shapes as [width, signed], optional results as [1, value] / [0] (rejected)"
+    return ("model answer encodes: shapes as [width, signed], optional results as [1, value] / [0] (rejected); the kinds added "
+            "after the audit answer [0, c] with the exception class c (1 TypeError, 2 ValueError, 3 IndexError, 4 SyntaxError)")
